@@ -123,6 +123,57 @@ fn run_inner(sc: &J) -> Result<Option<String>, String> {
             if n != out.len() { return Ok(Some(format!("write_value returned {n} but {} bytes were written", out.len()))); }
             Ok(None)
         }
+        // C18: every construction route of the single-object writers and readers — header = C3 01 ++ little-endian CRC-64-AVRO
+        // (reference implementation) of the canonical form of the schema THE DATUM IS ENCODED WITH, and a reader built for that
+        // schema accepts the message. Routes: Generic writer new_with_capacity; Specific writer new(), builder() with the
+        // type's schema, builder().resolved(other schema); Generic reader builder; Specific reader new().
+        "single_object_constructors" => {
+            #[derive(serde::Serialize, serde::Deserialize, PartialEq, Debug, Clone)]
+            struct Pt { x: i64, y: String }
+            impl apache_avro::AvroSchema for Pt {
+                fn get_schema() -> Schema { Schema::parse_str("{\"type\":\"record\",\"name\":\"Pt\",\"fields\":[{\"name\":\"x\",\"type\":\"long\"},{\"name\":\"y\",\"type\":\"string\"}]}").unwrap() }
+            }
+            impl From<Pt> for Value { fn from(p: Pt) -> Value { Value::Record(vec![("x".into(), Value::Long(p.x)), ("y".into(), Value::String(p.y))]) } }
+            let own = <Pt as apache_avro::AvroSchema>::get_schema();
+            let other = Schema::parse_str("{\"type\":\"record\",\"name\":\"Pt\",\"namespace\":\"com.example\",\"fields\":[{\"name\":\"x\",\"type\":\"long\"},{\"name\":\"y\",\"type\":\"string\"}]}").map_err(|e| e.to_string())?;
+            let expect_header = |s: &Schema| -> Vec<u8> { let mut h = vec![0xC3u8, 0x01]; h.extend_from_slice(&crate::refimpl::crc64avro(s.canonical_form().as_bytes()).to_le_bytes()); h };
+            let pt = Pt { x: -7, y: "abc".into() };
+            let datum = apache_avro::to_avro_datum(&own, Value::from(pt.clone())).map_err(|e| e.to_string())?;
+            let check = |route: &str, schema: &Schema, msg: &[u8]| -> Option<String> {
+                let h = expect_header(schema);
+                if msg.len() < 10 || msg[..10] != h[..] { return Some(format!("{route}: message starts with {:02x?}, the header of the writer's schema is {:02x?}", &msg[..msg.len().min(10)], h)); }
+                if msg[10..] != datum[..] { return Some(format!("{route}: after the header come {:02x?}, the datum is {:02x?}", &msg[10..], datum)); }
+                match apache_avro::GenericSingleObjectReader::builder().schema(schema.clone()).build() {
+                    Ok(rd) => match rd.read_value(&mut &msg[..]) { Ok(_) => None, Err(e) => Some(format!("{route}: a reader built for the writer's schema rejects the message: {e}")) },
+                    Err(e) => Some(format!("{route}: reader construction failed: {e}")),
+                }
+            };
+            // generic writer
+            let mut gw = apache_avro::GenericSingleObjectWriter::new_with_capacity(&other, 64).map_err(|e| e.to_string())?;
+            let mut out = Vec::new(); gw.write_value_ref(&Value::from(pt.clone()), &mut out).map_err(|e| e.to_string())?;
+            if let Some(m) = check("GenericSingleObjectWriter::new_with_capacity(other)", &other, &out) { return Ok(Some(m)); }
+            // specific writer: new()
+            let sw = apache_avro::SpecificSingleObjectWriter::<Pt>::new().map_err(|e| e.to_string())?;
+            let mut out = Vec::new(); sw.write_value(pt.clone(), &mut out).map_err(|e| e.to_string())?;
+            if let Some(m) = check("SpecificSingleObjectWriter::new()", &own, &out) { return Ok(Some(m)); }
+            let mut out = Vec::new(); sw.write_ref(&pt, &mut out).map_err(|e| e.to_string())?;
+            if let Some(m) = check("SpecificSingleObjectWriter::new().write_ref", &own, &out) { return Ok(Some(m)); }
+            // specific writer: builder() with defaults
+            let sw = apache_avro::SpecificSingleObjectWriter::<Pt>::builder().build();
+            let mut out = Vec::new(); sw.write_value(pt.clone(), &mut out).map_err(|e| e.to_string())?;
+            if let Some(m) = check("SpecificSingleObjectWriter::builder().build()", &own, &out) { return Ok(Some(m)); }
+            // specific writer: builder() with a schema of the caller's choice
+            let sw = apache_avro::SpecificSingleObjectWriter::<Pt>::builder().resolved(other.clone()).map_err(|e| e.to_string())?.build();
+            let mut out = Vec::new(); sw.write_value(pt.clone(), &mut out).map_err(|e| e.to_string())?;
+            if let Some(m) = check("SpecificSingleObjectWriter::builder().resolved(other).build()", &other, &out) { return Ok(Some(m)); }
+            // specific reader
+            let sr = apache_avro::SpecificSingleObjectReader::<Pt>::new().map_err(|e| e.to_string())?;
+            let mut msg = expect_header(&own); msg.extend_from_slice(&datum);
+            match sr.read(&mut &msg[..]) { Ok(p) if p == pt => {}, other => return Ok(Some(format!("SpecificSingleObjectReader::new(): a spec-conforming message of its schema reads as {other:?}"))) }
+            let mut bad = msg.clone(); bad[5] ^= 1;
+            if sr.read(&mut &bad[..]).is_ok() { return Ok(Some("SpecificSingleObjectReader::new(): a message with a different fingerprint is accepted".into())); }
+            Ok(None)
+        }
         // C13: encode's returned count equals bytes appended (datum given as hex under schema)
         "encode_count" => {
             let schema = Schema::parse_str(sc["schema"].as_str().ok_or("schema")?).map_err(|e| e.to_string())?;
@@ -386,28 +437,46 @@ fn run_inner(sc: &J) -> Result<Option<String>, String> {
         "validate_write" => {
             let schema = Schema::parse_str(sc["schema"].as_str().ok_or("schema")?).map_err(|e| e.to_string())?;
             let value = crate::dsl(&sc["value"])?;
-            let w = apache_avro::writer::datum::GenericDatumWriter::builder(&schema).build().map_err(|e| e.to_string())?;
-            let mut out = Vec::new();
-            let res = w.write_value_ref(&mut out, &value);
-            if value.validate(&schema) {
-                if let Err(e) = res { return Ok(Some(format!("validate accepts {value:?} but the datum writer fails: {e} (after writing {} bytes)", out.len()))); }
-                let mut rd = &out[..];
-                match apache_avro::from_avro_datum(&schema, &mut rd, None) {
-                    Ok(back) => {
-                        if !rd.is_empty() { return Ok(Some(format!("bytes {:02x?} are not exactly one datum", out))); }
-                        if !back.validate(&schema) { return Ok(Some(format!("decoded {back:?} does not validate"))); }
-                        if let Ok(canon) = value.clone().resolve(&schema) { if canon != back { return Ok(Some(format!("written bytes decode to {back:?}, the value's canonical form is {canon:?}"))); } }
-                    }
-                    Err(e) => return Ok(Some(format!("validate accepts {value:?}, written bytes {:02x?} do not decode: {e}", out))),
+            validate_write_check(&schema, &value)
+        }
+        // C07: the same check as a sweep over value FORMS that validation accepts for one schema: record fields in every
+        // order, with a field given under its schema name or its alias, top-level and inside a union; numeric promotions;
+        // string for enum; logical types over their base representations. (The forms recorded as known findings D8b-e are
+        // not generated.)
+        "validate_write_sweep" => {
+            let rec_schema = "{\"type\":\"record\",\"name\":\"trip\",\"fields\":[{\"name\":\"name\",\"type\":\"string\"},{\"name\":\"date\",\"type\":\"long\",\"aliases\":[\"time\",\"when\"]},{\"name\":\"seats\",\"type\":\"int\"}]}";
+            let schema = Schema::parse_str(rec_schema).map_err(|e| e.to_string())?;
+            let uschema = Schema::parse_str(&format!("[\"null\",{rec_schema}]")).map_err(|e| e.to_string())?;
+            let perms: [[usize; 3]; 6] = [[0, 1, 2], [0, 2, 1], [1, 0, 2], [1, 2, 0], [2, 0, 1], [2, 1, 0]];
+            for perm in perms {
+                for date_key in ["date", "time", "when"] {
+                    let fields = [("name", Value::String("abc".into())), (date_key, Value::Long(1_700_000_000_000)), ("seats", Value::Int(3))];
+                    let rec = Value::Record(perm.iter().map(|i| (fields[*i].0.to_string(), fields[*i].1.clone())).collect());
+                    if let Some(m) = validate_write_check(&schema, &rec)? { return Ok(Some(format!("record form order {perm:?} key {date_key}: {m}"))); }
+                    if let Some(m) = validate_write_check(&uschema, &Value::Union(1, Box::new(rec.clone())))? { return Ok(Some(format!("record-in-union form order {perm:?} key {date_key}: {m}"))); }
                 }
-                // container and single-object writers must accept it too
-                let mut cw = apache_avro::Writer::new(&schema, Vec::new()).map_err(|e| e.to_string())?;
-                if let Err(e) = cw.append_value_ref(&value) { return Ok(Some(format!("validate accepts the value but Writer::append_value_ref fails: {e}"))); }
-                let mut sw = apache_avro::GenericSingleObjectWriter::new_with_capacity(&schema, 32).map_err(|e| e.to_string())?;
-                if let Err(e) = sw.write_value_ref(&value, &mut Vec::new()) { return Ok(Some(format!("validate accepts the value but the single-object writer fails: {e}"))); }
-            } else {
-                if res.is_ok() { return Ok(Some(format!("validate rejects {value:?} but the validating writer returned Ok"))); }
-                if !out.is_empty() { return Ok(Some(format!("validate rejects the value but {} byte(s) reached the output", out.len()))); }
+            }
+            let forms: Vec<(&str, Value)> = vec![
+                ("\"long\"", Value::Int(-70000)), ("\"double\"", Value::Int(7)), ("\"double\"", Value::Long(1 << 40)), ("\"double\"", Value::Float(1.5)),
+                ("\"float\"", Value::Int(7)), ("\"float\"", Value::Long(1 << 20)), ("\"float\"", Value::Double(2.5)),
+                ("{\"type\":\"enum\",\"name\":\"e\",\"symbols\":[\"a\",\"b\",\"c\"]}", Value::String("c".into())),
+                ("{\"type\":\"enum\",\"name\":\"e\",\"symbols\":[\"a\",\"b\",\"c\"]}", Value::Enum(1, "b".into())),
+                ("{\"type\":\"int\",\"logicalType\":\"date\"}", Value::Int(19000)), ("{\"type\":\"int\",\"logicalType\":\"date\"}", Value::Date(19000)),
+                ("{\"type\":\"long\",\"logicalType\":\"timestamp-millis\"}", Value::Long(1_700_000_000_000)), ("{\"type\":\"long\",\"logicalType\":\"timestamp-millis\"}", Value::TimestampMillis(5)),
+                ("{\"type\":\"long\",\"logicalType\":\"timestamp-micros\"}", Value::Int(5)), ("{\"type\":\"long\",\"logicalType\":\"time-micros\"}", Value::TimeMicros(5)),
+                ("{\"type\":\"int\",\"logicalType\":\"time-millis\"}", Value::TimeMillis(5)),
+                ("{\"type\":\"string\",\"logicalType\":\"uuid\"}", Value::String("b2f1cf00-0434-013e-439a-125eb8485a5f".into())),
+                ("{\"type\":\"fixed\",\"name\":\"u\",\"size\":16,\"logicalType\":\"uuid\"}", Value::Fixed(16, vec![7; 16])),
+                ("{\"type\":\"fixed\",\"name\":\"d\",\"size\":12,\"logicalType\":\"duration\"}", Value::Fixed(12, vec![1; 12])),
+                ("{\"type\":\"fixed\",\"name\":\"f\",\"size\":4}", Value::Bytes(vec![1, 2, 3, 4])), ("{\"type\":\"fixed\",\"name\":\"f\",\"size\":4}", Value::Fixed(4, vec![1, 2, 3, 4])),
+                ("\"bytes\"", Value::Fixed(3, vec![1, 2, 3])), ("\"bytes\"", Value::String("xyz".into())), ("\"string\"", Value::Bytes(b"xyz".to_vec())),
+                ("[\"long\",\"null\"]", Value::Union(1, Box::new(Value::Null))), ("[\"long\",\"null\"]", Value::Null),
+                ("{\"type\":\"map\",\"values\":\"long\"}", Value::Map([("k".to_string(), Value::Int(5))].into_iter().collect())),
+                ("{\"type\":\"array\",\"items\":\"double\"}", Value::Array(vec![Value::Int(1), Value::Float(2.0), Value::Double(3.0)])),
+            ];
+            for (st, v) in forms {
+                let schema = Schema::parse_str(st).map_err(|e| format!("{st}: {e}"))?;
+                if let Some(m) = validate_write_check(&schema, &v)? { return Ok(Some(format!("schema {st}: {m}"))); }
             }
             Ok(None)
         }
@@ -897,6 +966,35 @@ fn matrix_item<T: serde::Serialize>(st: &str, jv: &T, ref_value: Value) -> Resul
     }
     Ok(None)
 }
+
+/// C07: validate(value, schema) decides; if it accepts, the datum, container and single-object writers must write the value
+/// and the bytes must decode to its canonical form; if it rejects, the validating writer must fail without output
+fn validate_write_check(schema: &Schema, value: &Value) -> Result<Option<String>, String> {
+            let w = apache_avro::writer::datum::GenericDatumWriter::builder(schema).build().map_err(|e| e.to_string())?;
+            let mut out = Vec::new();
+            let res = w.write_value_ref(&mut out, value);
+            if value.validate(schema) {
+                if let Err(e) = res { return Ok(Some(format!("validate accepts {value:?} but the datum writer fails: {e} (after writing {} bytes)", out.len()))); }
+                let mut rd = &out[..];
+                match apache_avro::from_avro_datum(schema, &mut rd, None) {
+                    Ok(back) => {
+                        if !rd.is_empty() { return Ok(Some(format!("bytes {:02x?} are not exactly one datum", out))); }
+                        if !back.validate(schema) { return Ok(Some(format!("decoded {back:?} does not validate"))); }
+                        if let Ok(canon) = value.clone().resolve(schema) { if canon != back { return Ok(Some(format!("written bytes decode to {back:?}, the value's canonical form is {canon:?}"))); } }
+                    }
+                    Err(e) => return Ok(Some(format!("validate accepts {value:?}, written bytes {:02x?} do not decode: {e}", out))),
+                }
+                // container and single-object writers must accept it too
+                let mut cw = apache_avro::Writer::new(schema, Vec::new()).map_err(|e| e.to_string())?;
+                if let Err(e) = cw.append_value_ref(value) { return Ok(Some(format!("validate accepts the value but Writer::append_value_ref fails: {e}"))); }
+                let mut sw = apache_avro::GenericSingleObjectWriter::new_with_capacity(schema, 32).map_err(|e| e.to_string())?;
+                if let Err(e) = sw.write_value_ref(value, &mut Vec::new()) { return Ok(Some(format!("validate accepts the value but the single-object writer fails: {e}"))); }
+            } else {
+                if res.is_ok() { return Ok(Some(format!("validate rejects {value:?} but the validating writer returned Ok"))); }
+                if !out.is_empty() { return Ok(Some(format!("validate rejects the value but {} byte(s) reached the output", out.len()))); }
+            }
+            Ok(None)
+        }
 
 pub fn parse_codec(name: &str) -> apache_avro::Codec {
     match name {
